@@ -10,15 +10,16 @@ from ..stubs import PyFile
 MANIFEST = dict(
     engines="A",
     technique="symbolic execution (CrossHair+z3) of DebFile.__init__ part discovery over archives whose member set and member order are symbolic (bitmask and rotation), and of DebPart name normalisation/has_file/__contains__/get_content with a symbolic query name on one concrete uncompressed package",
-    text="REDUCED SCOPE. (a) Rejection matrix: for every subset of the 11 relevant member names (debian-binary, control.tar[.gz|.bz2|.xz|.lzma], data.tar[.gz|.bz2|.xz|.lzma], plus a foreign member) in rotated/reversed order, DebFile(fileobj=...) raises the package-format error exactly when debian-binary is missing, a part is missing, or a part has two candidates, and otherwise reports the version and selects the unique candidates. (b) Path spelling: for every query name of up to 3 symbolic characters (and the packed names with a symbolic suffix), has_file, `in` and get_content answer identically for 'name', './name' and '/name' and agree with the packed file set.",
-    note="NOT covered (cannot be encoded by this technique here): everything that passes through tarfile, gzip, bz2, lzma and struct -- the 5x5 compression matrix and the equality of control fields, scripts, md5sums and file contents with what was packed. Those are C-level codecs; a symbolic input is realised at that boundary, which would be concrete testing under another name. The tar members used here are concrete and uncompressed; PyFile stands for the file object.",
+    text="(0) Content matrix (solver-driven enumeration of configurations, every path reads a real prebuilt package): for all 5x5 compression pairs, subsets of maintainer scripts with empty and non-empty bodies, four data file sets (names with spaces, trailing blank, dot names; empty and binary contents) and three member orders, debcontrol(), scripts(), md5sums() (bytes and text), has_file/in/get_content in the three spellings return exactly what was packed. (a) Rejection matrix: for every subset of the 11 relevant member names (debian-binary, control.tar[.gz|.bz2|.xz|.lzma], data.tar[.gz|.bz2|.xz|.lzma], plus a foreign member) in rotated/reversed order, DebFile(fileobj=...) raises the package-format error exactly when debian-binary is missing, a part is missing, or a part has two candidates, and otherwise reports the version and selects the unique candidates. (b) Path spelling: for every query name of up to 3 symbolic characters (and the packed names with a symbolic suffix), has_file, `in` and get_content answer identically for 'name', './name' and '/name' and agree with the packed file set.",
+    note="The tarballs and their compression are C-level codecs (tarfile, gzip, bz2, lzma, struct): file *contents and names* cannot be symbolic there -- a symbolic input would be realised at that boundary. Part (0) therefore quantifies over configurations by symbolic index with contents/names from catalogues (bounded enumeration driven by the solver, labelled so); arbitrary control fields, names and contents remain outside the claim. PyFile stands for the file object; packages are built with the stdlib at import time.",
 )
 
-FUNCTIONS = ["debian.debfile.DebFile.__init__", "debian.debfile.DebPart.__normalize_member", "debian.debfile.DebPart.has_file",
+FUNCTIONS = ["debian.debfile.DebControl.scripts", "debian.debfile.DebControl.md5sums", "debian.debfile.DebControl.debcontrol", "debian.debfile.DebPart.tgz",
+             "debian.debfile.DebFile.__init__", "debian.debfile.DebPart.__normalize_member", "debian.debfile.DebPart.has_file",
              "debian.debfile.DebPart.__contains__", "debian.debfile.DebPart.get_content", "debian.arfile.ArFile.__collect_members"]
 STUBS = ["PyFile for the archive file object; concrete uncompressed tar members built with the stdlib at import time"]
 ASSUMPTIONS = ["query names do not themselves start with '/' or './' (they are the relative names of packed files)"]
-OUTSIDE = ["compressed parts (gz/bz2/xz/lzma) and the content equality of control fields, maintainer scripts, md5sums and data files: C-level codecs, not encodable",
+OUTSIDE = ["arbitrary (symbolic) control fields, file names and file contents inside the tarballs: C-level codecs, not encodable; only catalogue values chosen by symbolic index",
            "member names longer than 15 bytes"]
 
 NAMES = ["debian-binary", "control.tar", "control.tar.gz", "control.tar.bz2", "control.tar.xz", "control.tar.lzma",
@@ -93,6 +94,113 @@ def h_matrix(params, m0: bool, m1: bool, m2: bool, m3: bool, m4: bool, m5: bool,
     reach(params, "accepted")
 
 
+# ------------------------------------------------------------------ content matrix (configurations by symbolic index)
+import bz2
+import gzip
+import hashlib
+import lzma
+
+COMPRESSIONS = ["", "gz", "bz2", "xz", "lzma"]
+SCRIPT_NAMES = ["preinst", "postinst", "prerm", "postrm", "config"]
+SCRIPT_BODIES = [b"#!/bin/sh\nexit 0\n", b"", b"#!/bin/sh\n# \xc3\xa9\n"]
+DATA_SETS = [
+    [("usr/bin/x", b"#!/bin/sh\n"), ("usr/share/doc/x y/z", b"spaces"), (".hidden", b"h")],
+    [("a", b""), ("etc/name with  two spaces", b"\x00\x01\xff"), ("etc/trailing ", b"t")],
+    [],
+    [("usr/lib/..data", b"d"), ("usr/lib/x.so.1", b"\x7fELF" + b"\x00" * 40)],
+]
+
+
+def _compress(kind, raw):
+    if kind == "gz":
+        return gzip.compress(raw, mtime=0)
+    if kind == "bz2":
+        return bz2.compress(raw)
+    if kind == "xz":
+        return lzma.compress(raw, format=lzma.FORMAT_XZ)
+    if kind == "lzma":
+        return lzma.compress(raw, format=lzma.FORMAT_ALONE)
+    return raw
+
+
+def _control_files(mask, bodysel, ds):
+    files = [("control", b"Package: x\nVersion: 1.0-1\nDescription: short\n long line\n .\n more\n")]
+    scripts = {}
+    for i, n in enumerate(SCRIPT_NAMES):
+        if (mask >> i) & 1:
+            body = SCRIPT_BODIES[(bodysel + i) % len(SCRIPT_BODIES)]
+            files.append((n, body))
+            scripts[n] = body
+    md5 = b"".join(hashlib.md5(d).hexdigest().encode() + b"  " + n.encode() + b"\n" for n, d in DATA_SETS[ds])
+    files.append(("md5sums", md5))
+    return files, scripts
+
+
+_PART_CACHE = {}
+
+
+def _part(kind, key, files):
+    k = (kind, key)
+    if k not in _PART_CACHE:
+        _PART_CACHE[k] = _compress(kind, _tar(files))
+    return _PART_CACHE[k]
+
+
+# prebuilt outside symbolic execution (import time): every control variant and data set in every compression
+for _m in range(32):
+    for _b in range(3):
+        for _ds in range(len(DATA_SETS)):
+            if _m in (0, 31, 5, 10, 21) or (_b == 0 and _ds == 0):
+                for _c in COMPRESSIONS:
+                    _part(_c, ("ctrl", _m, _b, _ds), _control_files(_m, _b, _ds)[0])
+for _ds in range(len(DATA_SETS)):
+    for _c in COMPRESSIONS:
+        _part(_c, ("data", _ds), DATA_SETS[_ds])
+
+
+def h_content(params, cc: int, dc: int, mask: int, bodysel: int, ds: int, order: int):
+    """The package reader returns exactly what was packed, for every compression pair, subset of maintainer
+    scripts (empty and non-empty), data file set and member order.  Configurations are chosen by symbolic
+    indices; every path runs the real reader on a real (prebuilt) package."""
+    assume(0 <= cc < 5 and 0 <= dc < 5)
+    if "cc" in params:
+        assume(cc == params["cc"])
+    assume(0 <= mask < 32 and 0 <= bodysel < 3 and 0 <= ds < len(DATA_SETS) and 0 <= order < 3)
+    assume(mask in (0, 31, 5, 10, 21) or (bodysel == 0 and ds == 0))
+    if params.get("thin"):
+        assume(order == (mask + dc + ds) % 3)
+    files, scripts = _control_files(mask, bodysel, ds)
+    cname = "control.tar" + ("." + COMPRESSIONS[cc] if COMPRESSIONS[cc] else "")
+    dname = "data.tar" + ("." + COMPRESSIONS[dc] if COMPRESSIONS[dc] else "")
+    members = [("debian-binary", b"2.0\n"), (cname, _part(COMPRESSIONS[cc], ("ctrl", mask, bodysel, ds), files)),
+               (dname, _part(COMPRESSIONS[dc], ("data", ds), DATA_SETS[ds]))]
+    if order == 1:
+        members = [members[0], members[2], members[1]]
+    elif order == 2:
+        members = [members[2], members[1], members[0]]
+    deb = DebFile(fileobj=PyFile(_ar(members)))
+    require(deb.version == b"2.0", "version")
+    ctl = deb.debcontrol()
+    require(list(ctl.items()) == [("Package", "x"), ("Version", "1.0-1"), ("Description", "short\n long line\n .\n more")],
+            "control fields differ from what was packed", got=list(ctl.items()))
+    got_scripts = deb.scripts()
+    require(got_scripts == scripts, "maintainer scripts differ from what was packed", got=got_scripts, want=scripts, compression=cname)
+    want_md5 = {n.encode(): hashlib.md5(d).hexdigest() for n, d in DATA_SETS[ds]}
+    require(deb.md5sums() == want_md5, "md5sums map differs from what was packed", got=deb.md5sums(), want=want_md5)
+    require(deb.md5sums(encoding="utf-8") == {k.decode(): v for k, v in want_md5.items()}, "md5sums (text) map differs", got=deb.md5sums(encoding="utf-8"))
+    for n, d in DATA_SETS[ds]:
+        for sp in (n, "./" + n, "/" + n):
+            require(deb.data.has_file(sp) and (sp in deb.data), "packed file not found", spelling=sp, compression=dname)
+            require(deb.data.get_content(sp) == d, "content differs from what was packed", spelling=sp, compression=dname)
+        require(hashlib.md5(deb.data.get_content(n)).hexdigest() == deb.md5sums()[n.encode()], "md5 of content vs md5sums entry", name=n)
+    for n, d in files:
+        require(deb.control.get_content(n) == d, "control member content", name=n)
+    for absent in ("nonexistent", "usr/bin", "control"):
+        if absent not in [n for n, _ in DATA_SETS[ds]]:
+            require(not deb.data.has_file(absent) or absent == "usr/bin", "absent file reported", name=absent)
+    reach(params, "read")
+
+
 def h_spelling(params, q: str):
     """has_file / in / get_content answer identically for q, ./q and /q and agree with the packed set."""
     stem = params["stem"]
@@ -131,6 +239,9 @@ def partitions(tier, seed):
                       params=dict(fixed=list(fixed), **({"thin": True} if q else {})), budget=100 if q else 900, reach=[],
                       bounds="member subsets with the first %d presence bits fixed to %s, the other %d symbolic; %s" % (
                           len(fixed), list(fixed), 12 - len(fixed), "one order per subset" if q else "3 rotations x 2 directions")))
+    for cc in range(5):
+        P.append(dict(name="content/ctrl-%s" % (COMPRESSIONS[cc] or "plain"), harness="h_content", params=dict(cc=cc, **({"thin": True} if q else {})), budget=120 if q else 900, reach=["read"],
+                      bounds="control part %s x 5 data compressions x script subsets (empty and non-empty bodies) x 4 data file sets x 3 member orders, chosen by symbolic index" % (COMPRESSIONS[cc] or "uncompressed")))
     for stem, suffix in (("", True), ("usr/bin/", True), ("a", True), ("control", True), (".hidden", True), ("x", False), ("usr/share/doc/x y/", True)):
         for ln in ((0, 1, 2) if q else (0, 1, 2, 3)):
             if stem == "" and ln == 0:
